@@ -185,6 +185,10 @@ def run(ctx):
                                                   "ChaCha20", "XChaCha20"]
     ctx.extra["primitives_checked_structurally_only"] = []
     ctx.extra["entropy_patched_modules"] = res["entropy_patched_modules"]
+    # outside the property (it quantifies over valid parameters): what the library does with the impossible element of each domain
+    inv = res.get("invalid_observations", [])
+    ctx.extra["invalid_parameter_observations"] = {"tried": len(inv), "outcomes": dict(collections.Counter(o["outcome"] for o in inv)),
+                                                    "accepted": [o["what"] for o in inv if o["outcome"] == "accepted"]}
     ctx.rule = ("records = real library calls over every cipher x mode it admits (52 families): every key length class (quick: extremes + "
                 "seeded sample; thorough: every legal length of Blowfish/CAST/RC2/RC4), message lengths {0,1,bs-1,bs,bs+1,8bs-1,8bs,8bs+1,300} "
                 "(ECB/CBC: the block multiples around them; thorough adds 2 and 5 KiB), CFB segment sizes (thorough: all), CTR layouts from "
